@@ -26,7 +26,7 @@ PROPERTY = "C13"
 LEVEL = "exploration"
 USES_JAX = True
 CLEAR_EVERY = 40
-BUDGET_S = {"quick": 600, "thorough": 2400}
+BUDGET_S = {"quick": 900, "thorough": 3600}  # generous: the machine is shared; unloaded 16 cores need ~1 / ~4 min
 RULE = (
     "heads: full product class x head layout x action dim x parameter set x input rank (unbatched, N=1..n) x "
     "observation block x {__call__, entropy, log_probability over an action alphabet (every discrete action / "
@@ -69,6 +69,8 @@ K_ARGMAX = "greedy-step-action-not-argmax-of-current-q"
 K_SAMPLED = "explore-step-action-not-the-sampled-one"
 K_MULTI = "sampler-called-more-than-once-per-step"
 K_RAISED = "raised"
+K_EPS0_LOOP = "epsilon0-action-not-greedy-on-current-estimates"
+K_EPS1_LOOP = "epsilon1-actions-depend-on-the-table"
 
 D_OBS = 3
 HALF_LOG_2PI = 0.5 * math.log(2.0 * math.pi)
@@ -534,7 +536,6 @@ def work_tabgreedy(item, col):
     from rl_blox.blox import value_policy as vp
 
     A, seed = item["A"], item["seed"]
-    S = 2
     rows = [np.asarray(v, np.float32) for v in itertools.product(TAB_VALUES, repeat=A)]
     other = np.asarray([TAB_VALUES[(i + seed) % 3] for i in range(A)], np.float32)
     # greedy_policy: complete product of 2-row tables
@@ -833,10 +834,6 @@ def work_loop(item, col):
 # =========================================================================================
 # epsilon in {0, 1} inside the tabular trainers (E2, prefix differencing)
 # =========================================================================================
-
-K_EPS0_LOOP = "epsilon0-action-not-greedy-on-current-estimates"
-K_EPS1_LOOP = "epsilon1-actions-depend-on-the-table"
-
 
 def _tab_env(script, S):
     return ScriptEnv(script, discrete=True, n_actions=N_ACT, discrete_obs=S, horizon=len(script),
